@@ -1,9 +1,9 @@
 use std::collections::HashSet;
 
 use crate::{
-    Object,
+    Context, Object,
     model::{__Directive, __Type},
-    registry,
+    registry::{self, is_visible},
 };
 
 pub struct __Schema<'a> {
@@ -99,11 +99,12 @@ impl<'a> __Schema<'a> {
     }
 
     /// A list of all directives supported by this server.
-    async fn directives(&self) -> Vec<__Directive<'a>> {
+    async fn directives(&self, ctx: &Context<'_>) -> Vec<__Directive<'a>> {
         let mut directives: Vec<_> = self
             .registry
             .directives
             .values()
+            .filter(|directive| is_visible(ctx, &directive.visible))
             .map(|directive| __Directive {
                 registry: self.registry,
                 visible_types: self.visible_types,
